@@ -207,7 +207,7 @@ func (ex *Exec) store(st *State, l loc, v *Value) {
 	key := typeKey(l.root)
 	for j := lo; j < hi; j++ {
 		if ex.discover != nil && !ex.isFreshRef(l.ref) {
-			ex.discover.heap[fmt.Sprintf("%s|%d", key, j)] = heapKeyInfo{rootKey: key, root: l.root, comp: j, sort: comps[j].Sort}
+			ex.discover.noteWrite(fmt.Sprintf("%s|%d", key, j), heapKeyInfo{rootKey: key, root: l.root, comp: j, sort: comps[j].Sort}, l.ref)
 		}
 		h := ex.heapMap(st, key, j, comps[j].Sort)
 		base := ex.tb.Select(h, l.ref)
